@@ -23,7 +23,7 @@ META = {
                     "as_euler('XYZ') and re-validated against the oracle before use (gimbal-lock cases skipped)",
                     "tolerance: max(5e-6, 1e-9 |p|); 5e-6 max(1,|p|) if an input rotation vector lies in (0, 2e-6)"],
 }
-REQUIRED_CLAUSES = ["ctor.list6", "ctor.arr6", "ctor.arr6x1", "ctor.list3", "ctor.arr3", "ctor.rpy6", "ctor.rpy3", "ctor.list7",
+REQUIRED_CLAUSES = ["ctor.list6", "ctor.arr6", "ctor.arr6x1", "ctor.list3", "ctor.arr3", "ctor.rpy6", "ctor.rpy3", "ctor.pair_rpy", "ctor.list7",
                     "ctor.arr7", "ctor.mat4", "ctor.pair", "ctor.tm", "ctor.objarr", "quat.roundtrip", "matmul", "inv",
                     "assoc", "matmul.ndarray", "l2g", "g2l", "l2g.g2l.inverse"]
 
@@ -113,6 +113,8 @@ def check_case(case, ctx, tm, fsr):
                 ("ctor.rpy6", lambda: tm(np.concatenate([p, eul]), rpy=True), A),
                 ("ctor.rpy3", lambda: tm([float(x) for x in eul], rpy=True), se3.rp(Ra, np.zeros(3))),
                 ("ctor.rpy3", lambda: tm(np.array(eul), rpy=True), se3.rp(Ra, np.zeros(3))),
+                ("ctor.pair_rpy", lambda: tm([[float(x) for x in p], [float(x) for x in eul]], rpy=True), A),
+                ("ctor.pair_rpy", lambda: tm([[float(x) for x in p], [float(x) for x in eul]], True), A),
             ]:
                 o = build(clause, clause, fn)
                 M = gTM(o, clause, clause)
